@@ -116,7 +116,7 @@ func main() {
 		if err := ocidrv.Generate(*out, *n, *seed); err != nil {
 			fail(err)
 		}
-	case "relay":
+	case "relay", "relay-child":
 		fs := flag.NewFlagSet(mod, flag.ExitOnError)
 		o := relaydrv.Options{}
 		fs.StringVar(&o.Out, "out", "", "trace file")
@@ -131,23 +131,65 @@ func main() {
 		fs.BoolVar(&o.NoBlocks, "noblocks", false, "self-test: omit the sync blocks")
 		fs.BoolVar(&o.AllMasks, "allmasks", false, "enumerate masks")
 		fs.IntVar(&o.MaskBase, "maskbase", 0, "first mask number with -allmasks")
+		fs.IntVar(&o.Skip, "skip", 0, "runs already recorded")
+		fs.String("in", "", "(child) list of runs")
 		fs.Parse(args)
-		n, err := relaydrv.Run(o)
+		if mod == "relay-child" {
+			if _, err := relaydrv.Run(o); err != nil {
+				fail(err)
+			}
+			return
+		}
+		// the runs are recorded by child processes: a panic or a deadlock of the runtime side ends one child and
+		// is a recorded outcome of the run in flight; the next child continues with the following run
+		tmp, err := os.CreateTemp("", "relay-runs")
+		if err != nil {
+			fail(err)
+		}
+		for i := 0; i < o.Runs; i++ {
+			fmt.Fprintln(tmp, "{}")
+		}
+		tmp.Close()
+		defer os.Remove(tmp.Name())
+		extra := []string{}
+		for _, a := range args { // everything but -out goes to the children unchanged
+			extra = append(extra, a)
+		}
+		for i := 0; i+1 < len(extra); i++ {
+			if extra[i] == "-out" {
+				extra = append(extra[:i], extra[i+2:]...)
+				break
+			}
+		}
+		n, err := isolate.RunWith("relay-child", tmp.Name(), o.Out, extra, 150*time.Second,
+			map[string]any{"plugins": o.Plugins, "callers": o.Callers, "timeout_ms": 2000})
 		if err != nil {
 			fail(err)
 		}
 		fmt.Printf("{\"events\":%d}\n", n)
 	case "faults":
+		// one child process for as many scenarios as survive: a panic of the runtime side is a recorded outcome
 		fs := flag.NewFlagSet(mod, flag.ExitOnError)
 		in := fs.String("in", "", "fault scenarios (ndjson)")
 		out := fs.String("out", "", "trace file")
 		seed := fs.Int64("seed", 1, "seed")
 		fs.Parse(args)
-		n, err := relaydrv.RunFaults(*in, *out, *seed)
+		n, err := isolate.RunWith("faults-child", *in, *out, []string{"-seed", fmt.Sprint(*seed)}, 40*time.Second,
+			map[string]any{"plugins": 3, "callers": 1, "timeout_ms": 300, "fault": "crash", "pos": 0, "k": 0, "kind": ""})
 		if err != nil {
 			fail(err)
 		}
 		fmt.Printf("{\"events\":%d}\n", n)
+	case "faults-child":
+		fs := flag.NewFlagSet(mod, flag.ExitOnError)
+		in := fs.String("in", "", "fault scenarios (ndjson)")
+		out := fs.String("out", "", "trace file")
+		seed := fs.Int64("seed", 1, "seed")
+		skip := fs.Int("skip", 0, "scenarios to skip")
+		fs.Parse(args)
+		if _, err := relaydrv.RunFaults(*in, *out, *seed, *skip); err != nil {
+			fail(err)
+		}
 	case "regs":
 		fs := flag.NewFlagSet(mod, flag.ExitOnError)
 		in := fs.String("in", "", "registration scenarios (ndjson)")
